@@ -124,7 +124,10 @@ void task_group_context_impl::bind_to_impl(d1::task_group_context& ctx, thread_d
 
     // Condition below prevents unnecessary thrashing parent context's cache line
     if (ctx.my_parent->my_may_have_children.load(std::memory_order_relaxed) != d1::task_group_context::may_have_children) {
-        ctx.my_parent->my_may_have_children.store(d1::task_group_context::may_have_children, std::memory_order_relaxed); // full fence is below
+        ctx.my_parent->my_may_have_children.store(d1::task_group_context::may_have_children, std::memory_order_relaxed);
+        // The store must be globally visible before the speculative read of the parent's state below: a thread that
+        // cancels the parent checks this flag right after setting the state and skips the propagation if it is not set.
+        atomic_fence_seq_cst();
     }
     if (ctx.my_parent->my_parent) {
         // Even if this context were made accessible for state change propagation
